@@ -65,7 +65,7 @@ Print Assumptions c05_no_statement_after_failure.
 (* the checker's specification half holds on the model's own output (one pipeline) *)
 Theorem c05_spec_holds : forall dfault hfault b db0 free df hf,
   let s := run_op dfault hfault [b] db0 in
-  spec_holds (mk_case free df hf (rev (s_out s)) (last (s_err s) XNil) false
+  spec_holds (mk_case free df hf false (rev (s_out s)) (last (s_err s) XNil) false
                       (match_of s db0 [b]) 0%Z (s_open s)) = true.
 Proof. exact spec_holds_model. Qed.
 Print Assumptions c05_spec_holds.
